@@ -1,7 +1,10 @@
 use crate::mon::evidence::Tier;
 
 pub mod common;
+pub mod c01;
+pub mod c02;
 pub mod c03;
+pub mod c04;
 pub mod c05;
 pub mod c07;
 pub mod c19;
@@ -9,7 +12,10 @@ pub mod c20;
 
 pub fn dispatch(id: &str, tier: Tier, seed: u64, _sub: Option<&str>) -> i32 {
     match id {
+        "C01" => c01::run(tier, seed),
+        "C02" => c02::run(tier, seed),
         "C03" => c03::run(tier, seed),
+        "C04" => c04::run(tier, seed),
         "C05" => c05::run(tier, seed),
         "C07" => c07::run(tier, seed),
         "C19" => c19::run(tier, seed),
